@@ -151,8 +151,8 @@ def invMod (n a : Nat) : Nat := powMod n 800 (a % n) (n - 2)
 /-- points: affine coordinates, `none` = the point at infinity -/
 abbrev APoint := Option (Nat × Nat)
 
-/-- u1·G + u2·Q from two scalar multiplications and one mixed addition -/
-def lincombEc (c : Curve) (u1 u2 : Nat) (Q : APoint) : APoint :=
+/-- u1·G + u2·Q from two scalar multiplications and one mixed addition (the plain reading; `selfTest` compares `lincombEc` with it) -/
+def lincombPlain (c : Curve) (u1 u2 : Nat) (Q : APoint) : APoint :=
   let p1 := c.mulAux c.gx c.gy 800 u1
   match Q with
   | none => c.toAffine p1
@@ -160,6 +160,24 @@ def lincombEc (c : Curve) (u1 u2 : Nat) (Q : APoint) : APoint :=
     match c.toAffine (c.mulAux qx qy 800 u2) with
     | none => c.toAffine p1
     | some (x2, y2) => c.toAffine (c.addAffine p1 x2 y2)
+
+/-- the binary digits of u1 and u2 read together (Straus / Shamir): one doubling per digit position and one mixed addition of G, Q or
+    G + Q (`gq`, `none` when that is the point at infinity) where a digit is set -/
+def shamirAux (c : Curve) (qx qy : Nat) (gq : APoint) : Nat → Nat → Nat → JPoint
+  | 0, _, _ => ⟨1, 1, 0⟩
+  | fuel + 1, u1, u2 =>
+    if u1 = 0 ∧ u2 = 0 then ⟨1, 1, 0⟩
+    else
+      let dd := c.double (shamirAux c qx qy gq fuel (u1 / 2) (u2 / 2))
+      if u1 % 2 = 1 then
+        (if u2 % 2 = 1 then (match gq with | some (sx, sy) => c.addAffine dd sx sy | none => dd) else c.addAffine dd c.gx c.gy)
+      else (if u2 % 2 = 1 then c.addAffine dd qx qy else dd)
+
+/-- u1·G + u2·Q -/
+def lincombEc (c : Curve) (u1 u2 : Nat) (Q : APoint) : APoint :=
+  match Q with
+  | none => c.mulBase u1
+  | some (qx, qy) => c.toAffine (shamirAux c qx qy (c.toAffine (c.addAffine ⟨qx, qy, 1⟩ c.gx c.gy)) 800 u1 u2)
 
 def ops (c : Curve) : Ops APoint where
   n := c.n
@@ -279,6 +297,13 @@ def selfTest : Bool :=
   checkVector p384 x384 "test" "015ee46a5bf88773ed9123a5ab0807962d193719503c527b031b4c2d225092ada71f4a459bc0da98adb95837db8312ea"
     "8203b63d3c853e8d77227fb377bcf7b7b772e97892a80f36ab775d509d7a5feb0542a7f0812998da8f1dd3ca3cf023db"
     "ddd0760448d42d8a43af45af836fce4de8be06b485e9b61b827c2f13173923e06a739f040649a667bf3b828246baa5a5" &&
+  -- the joint double-and-add agrees with the plain linear combination (also for Q = G, Q = −G, Q = ∞, zero scalars)
+  [Ec.p256, Ec.p384, Ec.k256].all (fun c =>
+    let Q := c.mulBase 123456789
+    let negG : APoint := some (c.gx, c.p - c.gy)
+    [(0, 0), (1, 0), (0, 1), (7, 11), (c.n - 1, c.n - 2), (c.n / 3, c.n / 5)].all (fun (a, b) =>
+      lincombEc c a b Q == lincombPlain c a b Q && lincombEc c a b (some (c.gx, c.gy)) == lincombPlain c a b (some (c.gx, c.gy)) &&
+      lincombEc c a b negG == lincombPlain c a b negG && lincombEc c a b none == lincombPlain c a b none)) &&
   -- secp256k1: whatever s comes out is ≤ n/2, verifies, and (r, n − s) is rejected
   ["sample", "test", "a", "b", "c", "d"].all (fun msg =>
     let sk := ofHex x256
